@@ -104,6 +104,8 @@ type scenario struct {
 	fin    string   // "" | bad-tail | bad-head
 	only   string   // "" | "ecc" | "ecdhe"
 	group  string   // A | B
+	// the Certificate message is not sent at all
+	omitCert bool
 }
 
 var catalogue = []scenario{
@@ -126,6 +128,7 @@ var catalogue = []scenario{
 	{name: "single-cert", peer: "script", chain: []string{"srvsig"}, group: "A"},
 	{name: "single-cert-twice", peer: "script", chain: []string{"srvsig", "srvsig"}, group: "A"},
 	{name: "no-cert", peer: "script", chain: []string{}, group: "A"},
+	{name: "certificate-omitted", peer: "script", chain: []string{"srvsig", "srvenc"}, skx: "", fin: "", only: "", group: "A", omitCert: true},
 	{name: "with-root", peer: "script", chain: []string{"srvsig", "srvenc", "root"}, group: "A"},
 	{name: "foreign-sig-p256", peer: "script", chain: []string{"p256sig", "srvenc"}, sigKey: "srv2sig", group: "A"},
 	{name: "foreign-sig-ed25519", peer: "script", chain: []string{"edsig", "srvenc"}, sigKey: "srv2sig", group: "A"},
@@ -133,6 +136,7 @@ var catalogue = []scenario{
 	{name: "foreign-enc-p256", peer: "script", chain: []string{"srvsig", "p256enc"}, encKey: "srvenc", group: "A"},
 	// (B) proofs of possession
 	{name: "skx-other-key", peer: "real", chain: []string{"srvsig", "srvenc"}, sigKey: "srv2sig", group: "B"},
+	{name: "skx-signed-by-enc-key", peer: "real", chain: []string{"srvsig", "srvenc"}, sigKey: "srvenc", group: "B"},
 	{name: "no-enc-key", peer: "real", chain: []string{"srvsig", "srvenc"}, encKey: "srv2enc", group: "B"},
 	{name: "script-honest", peer: "script", chain: []string{"srvsig", "srvenc"}, group: "B"},
 	{name: "script-skx-other-key", peer: "script", chain: []string{"srvsig", "srvenc"}, sigKey: "othsig", group: "B"},
@@ -240,16 +244,16 @@ func b01(b bool) string {
 
 // what the driver establishes about one connection
 type verdicts struct {
-	peer                                  string
-	certmsg, parse                        bool
-	ncerts                                int
-	c                                     [2]string // kind:chain:id or "-"
-	skx, wf, sigvalid                     bool
-	signer, scr, ssr, sparams             string
-	intact                                bool
-	creq, clienc, done, ckx, fin          bool
-	sess                                  string // "none" or n:sig:enc
-	sresume, sfin                         bool
+	peer                         string
+	certmsg, parse               bool
+	ncerts                       int
+	c                            [2]string // kind:chain:id or "-"
+	skx, wf, sigvalid            bool
+	signer, scr, ssr, sparams    string
+	intact                       bool
+	creq, clienc, done, ckx, fin bool
+	sess                         string // "none" or n:sig:enc
+	sresume, sfin                bool
 }
 
 func (v verdicts) String() string {
@@ -578,6 +582,7 @@ type scriptPlan struct {
 	sendSKX    bool
 	skxOpts    scriptOpts
 	sendCreq   bool
+	omitCert   bool
 	finMutate  func([]byte) []byte
 }
 
@@ -598,7 +603,9 @@ func runScript(lk link, cc clientCfg, sc serverCfg, plan scriptPlan) (runResult,
 				return
 			}
 			_ = sp.Send("ServerHello", scriptOpts{})
-			_ = sp.Send("Certificate", scriptOpts{Certificates: plan.chainDER, EmptyCerts: plan.emptyCerts})
+			if !plan.omitCert {
+				_ = sp.Send("Certificate", scriptOpts{Certificates: plan.chainDER, EmptyCerts: plan.emptyCerts})
+			}
 			if plan.sendSKX {
 				_ = sp.Send("ServerKeyExchange", plan.skxOpts)
 			}
@@ -706,7 +713,7 @@ func runScenario(cd caseDesc, sc scenario, su suiteInfo) (verdicts, observation,
 		}
 	}
 	scfg.certs = own
-	plan := scriptPlan{sendSKX: true, sendCreq: su.ecdhe}
+	plan := scriptPlan{sendSKX: true, sendCreq: su.ecdhe, omitCert: sc.omitCert}
 	for _, n := range sc.chain {
 		plan.chainDER = append(plan.chainDER, leaves[n].DER)
 	}
